@@ -172,6 +172,142 @@ static void end_sequence(void)
 	rep_count("ledger_allocations", g_led_allocs); g_led_allocs = g_led_frees = 0;
 }
 
+/* ---- dimensions beyond 2^16: the model is a sorted list of (row << 32 | col) pairs ---- */
+typedef struct { uint64_t *p; size_t n, cap; } pset_t;
+static int cmp_u64(const void *a, const void *b) { uint64_t x = *(const uint64_t *)a, y = *(const uint64_t *)b; return x < y ? -1 : x > y; }
+static void ps_add(pset_t *s, uint32_t i, uint32_t j) { if (s->n == s->cap) { s->cap = s->cap ? s->cap * 2 : 1024; s->p = realloc(s->p, s->cap * sizeof *s->p); } s->p[s->n++] = ((uint64_t)i << 32) | j; }
+static void ps_norm(pset_t *s) { if (!s->n) return; qsort(s->p, s->n, sizeof *s->p, cmp_u64); size_t w = 1; for (size_t r = 1; r < s->n; r++) if (s->p[r] != s->p[w - 1]) s->p[w++] = s->p[r]; s->n = w; }
+static void ps_free(pset_t *s) { free(s->p); memset(s, 0, sizeof *s); }
+/* the matrix must hold exactly the pairs of the model: row walk, column walk, find on members and on neighbours */
+static int big_check(of_mod2sparse *m, uint32_t R, uint32_t C, pset_t *want, const char *what)
+{
+	g_lastop = what;
+	if ((uint32_t)of_mod2sparse_rows(m) != R || (uint32_t)of_mod2sparse_cols(m) != C) { vio("structure", "dimensions %dx%d, expected %ux%u", of_mod2sparse_rows(m), of_mod2sparse_cols(m), R, C); return 1; }
+	pset_t got = { 0 };
+	for (uint32_t i = 0; i < R; i++) {
+		long prev = -1; size_t n = 0;
+		for (of_mod2entry *e = of_mod2sparse_first_in_row(m, i); !of_mod2sparse_at_end(e); e = of_mod2sparse_next_in_row(e)) {
+			if ((uint32_t)e->row != i || (long)e->col <= prev || (uint32_t)e->col >= C) { vio("structure", "row list %u holds entry (%d,%d) after column %ld", i, e->row, e->col, prev); ps_free(&got); return 1; }
+			prev = e->col; ps_add(&got, i, (uint32_t)e->col);
+			if (++n > C) { vio("structure", "row %u: list longer than the number of columns", i); ps_free(&got); return 1; }
+		}
+	}
+	int bad = 0;
+	if (got.n != want->n) { vio("model", "%zu entries in the row lists, model has %zu (%ux%u)", got.n, want->n, R, C); bad = 1; }
+	for (size_t x = 0; !bad && x < got.n; x++) if (got.p[x] != want->p[x]) { vio("model", "row walk: entry (%u,%u) where the model has (%u,%u)", (unsigned)(got.p[x] >> 32), (unsigned)got.p[x], (unsigned)(want->p[x] >> 32), (unsigned)want->p[x]); bad = 1; }
+	got.n = 0;
+	for (uint32_t j = 0; !bad && j < C; j++) {
+		long prev = -1; size_t n = 0;
+		for (of_mod2entry *e = of_mod2sparse_first_in_col(m, j); !of_mod2sparse_at_end_col(e); e = of_mod2sparse_next_in_col(e)) {
+			if ((uint32_t)e->col != j || (long)e->row <= prev || (uint32_t)e->row >= R) { vio("structure", "column list %u holds entry (%d,%d) after row %ld", j, e->row, e->col, prev); bad = 1; break; }
+			prev = e->row; ps_add(&got, (uint32_t)e->row, j);
+			if (++n > R) { vio("structure", "column %u: list longer than the number of rows", j); bad = 1; break; }
+		}
+	}
+	if (!bad) { ps_norm(&got); if (got.n != want->n) { vio("model", "%zu entries in the column lists, model has %zu", got.n, want->n); bad = 1; } }
+	for (size_t x = 0; !bad && x < got.n; x++) if (got.p[x] != want->p[x]) { vio("model", "column walk: entry (%u,%u) where the model has (%u,%u)", (unsigned)(got.p[x] >> 32), (unsigned)got.p[x], (unsigned)(want->p[x] >> 32), (unsigned)want->p[x]); bad = 1; }
+	ps_free(&got);
+	for (size_t x = 0; !bad && x < want->n; x++) {
+		uint32_t i = (uint32_t)(want->p[x] >> 32), j = (uint32_t)want->p[x];
+		of_mod2entry *e = of_mod2sparse_find(m, i, j);
+		if (!e || (uint32_t)e->row != i || (uint32_t)e->col != j) { vio("model", "find(%u,%u) = %s, the model has the entry", i, j, e ? "another entry" : "NULL"); bad = 1; break; }
+		/* the same position folded modulo 2^16 must be absent unless the model has it */
+		uint32_t fi = i & 0xFFFF, fj = j & 0xFFFF;
+		if ((fi != i || fj != j) && fi < R && fj < C) { uint64_t key = ((uint64_t)fi << 32) | fj; int has = bsearch(&key, want->p, want->n, sizeof key, cmp_u64) != NULL; if ((of_mod2sparse_find(m, fi, fj) != NULL) != has) { vio("model", "find(%u,%u) disagrees with the model (%d)", fi, fj, has); bad = 1; break; } }
+	}
+	g_ops++;
+	return bad;
+}
+static uint32_t near16(rng_t *r, uint32_t D)
+{	/* positions clustered around multiples of 2^16 and the ends, else uniform */
+	static const int d[] = { -2, -1, 0, 1, 2 };
+	uint32_t v;
+	switch (rng_below(r, 4)) {
+	case 0: v = 65536u * (1 + rng_below(r, D / 65536u ? D / 65536u : 1)) + (uint32_t)d[rng_below(r, 5)]; break;
+	case 1: v = rng_below(r, 4) ? rng_below(r, 8) : D - 1 - rng_below(r, 8); break;
+	default: v = rng_below(r, D); break;
+	}
+	return v < D ? v : rng_below(r, D);
+}
+static void big_case(rng_t *r, uint32_t R, uint32_t C, int nent)
+{
+	led_reset(); g_led_bad_free = 0;
+	uint64_t v0 = g_viol_total;
+	pset_t P = { 0 }, Q = { 0 };
+	g_lastop = "allocate";
+	LIB_ENTER(); of_mod2sparse *a = of_mod2sparse_allocate(R, C), *b = of_mod2sparse_allocate(R, C); LIB_LEAVE();
+	if (!a || !b) { vio("model", "allocate(%u,%u) returned NULL", R, C); return; }
+	g_lastop = "insert";
+	for (int x = 0; x < nent; x++) {
+		uint32_t i = near16(r, R), j = near16(r, C);
+		LIB_ENTER(); of_mod2entry *e = of_mod2sparse_insert(a, i, j); LIB_LEAVE();
+		if (!e || (uint32_t)e->row != i || (uint32_t)e->col != j) { vio("model", "insert(%u,%u) returned %s", i, j, e ? "a wrong entry" : "NULL"); break; }
+		ps_add(&P, i, j); g_ops++;
+	}
+	ps_norm(&P);
+	if (g_viol_total == v0) big_check(a, R, C, &P, "insert");
+	/* copy */
+	if (g_viol_total == v0) { g_lastop = "copy"; LIB_ENTER(); of_mod2sparse_copy(a, b); LIB_LEAVE(); big_check(b, R, C, &P, "copy"); }
+	/* copy_filled_matrix with the compaction maps the ML decoder builds, into a matrix of the compacted size */
+	if (g_viol_total == v0) {
+		UINT32 *ir = calloc(R, sizeof *ir), *ic = calloc(C, sizeof *ic); uint32_t nr = 0, nc = 0;
+		uint8_t *ur = calloc(R, 1), *uc = calloc(C, 1);
+		for (size_t x = 0; x < P.n; x++) { ur[P.p[x] >> 32] = 1; uc[(uint32_t)P.p[x]] = 1; }
+		for (uint32_t i = 0; i < R; i++) if (ur[i]) ir[i] = nr++;
+		for (uint32_t j = 0; j < C; j++) if (uc[j]) ic[j] = nc++;
+		g_lastop = "copy_filled_matrix";
+		LIB_ENTER(); of_mod2sparse *c = of_mod2sparse_allocate(nr ? nr : 1, nc ? nc : 1); of_mod2sparse_copy_filled_matrix(a, c, ir, ic); LIB_LEAVE();
+		Q.n = 0; for (size_t x = 0; x < P.n; x++) ps_add(&Q, ir[P.p[x] >> 32], ic[(uint32_t)P.p[x]]);
+		ps_norm(&Q);
+		big_check(c, nr ? nr : 1, nc ? nc : 1, &Q, "copy_filled_matrix");
+		LIB_ENTER(); of_mod2sparse_free(c); of_free(c); LIB_LEAVE();
+		/* and with the identity maps: the image is the matrix itself */
+		if (g_viol_total == v0) {
+			for (uint32_t i = 0; i < R; i++) ir[i] = i;
+			for (uint32_t j = 0; j < C; j++) ic[j] = j;
+			g_lastop = "copy_filled_matrix";
+			LIB_ENTER(); of_mod2sparse_clear(b); of_mod2sparse_copy_filled_matrix(a, b, ir, ic); LIB_LEAVE();
+			big_check(b, R, C, &P, "copy_filled_matrix");
+		}
+		/* copyrows / copycols with a permutation that moves rows and columns across the 2^16 line */
+		if (g_viol_total == v0) {
+			uint32_t sh = 1 + rng_below(r, R > 1 ? R - 1 : 1);
+			for (uint32_t i = 0; i < R; i++) ir[i] = (i + sh) % R;                 /* row i of b = row ir[i] of a */
+			g_lastop = "copyrows";
+			LIB_ENTER(); of_mod2sparse_copyrows(a, b, ir); LIB_LEAVE();
+			Q.n = 0; for (size_t x = 0; x < P.n; x++) { uint32_t src = (uint32_t)(P.p[x] >> 32); ps_add(&Q, (src + R - sh) % R, (uint32_t)P.p[x]); }
+			ps_norm(&Q); big_check(b, R, C, &Q, "copyrows");
+		}
+		if (g_viol_total == v0) {
+			uint32_t sh = 1 + rng_below(r, C > 1 ? C - 1 : 1);
+			for (uint32_t j = 0; j < C; j++) ic[j] = (j + sh) % C;
+			g_lastop = "copycols";
+			LIB_ENTER(); of_mod2sparse_copycols(a, b, ic); LIB_LEAVE();
+			Q.n = 0; for (size_t x = 0; x < P.n; x++) { uint32_t src = (uint32_t)P.p[x]; ps_add(&Q, (uint32_t)(P.p[x] >> 32), (src + C - sh) % C); }
+			ps_norm(&Q); big_check(b, R, C, &Q, "copycols");
+		}
+		free(ir); free(ic); free(ur); free(uc);
+	}
+	/* delete every other entry, then clear */
+	if (g_viol_total == v0) {
+		g_lastop = "delete"; Q.n = 0;
+		for (size_t x = 0; x < P.n; x++) {
+			uint32_t i = (uint32_t)(P.p[x] >> 32), j = (uint32_t)P.p[x];
+			if (x & 1) { ps_add(&Q, i, j); continue; }
+			LIB_ENTER(); of_mod2entry *e = of_mod2sparse_find(a, i, j); if (e) of_mod2sparse_delete(a, e); LIB_LEAVE();
+			if (!e) { vio("model", "find(%u,%u) is NULL but the model has the entry", i, j); break; }
+			g_ops++;
+		}
+		ps_norm(&Q);
+		if (g_viol_total == v0) big_check(a, R, C, &Q, "delete");
+	}
+	if (g_viol_total == v0) { g_lastop = "clear"; LIB_ENTER(); of_mod2sparse_clear(a); LIB_LEAVE(); Q.n = 0; big_check(a, R, C, &Q, "clear"); }
+	g_lastop = "free";
+	LIB_ENTER(); of_mod2sparse_free(a); of_free(a); of_mod2sparse_free(b); of_free(b); LIB_LEAVE();
+	ps_free(&P); ps_free(&Q);
+	end_sequence();
+}
+
 /* random model-based sequence */
 static void random_sequence(rng_t *r, int len, int maxdim, int dense_fill)
 {
@@ -268,6 +404,23 @@ int p_c17(void)
 		if (rep_case("scripted copy into a non-empty destination")) { led_reset(); m_alloc(0, 3, 4); m_alloc(1, 4, 5); for (int i = 0; i < 12; i++) m_insert(1, i % 4, i % 5); m_insert(0, 1, 2); m_insert(0, 2, 3); m_copy(0, 1); check(&g_m[1], 1); m_insert(1, 3, 4); m_insert(1, 0, 0); check(&g_m[1], 1); end_sequence(); rep_case_done(1, 0, 1); }
 	}
 	unit++;
+	/* dimensions beyond 2^16 (tall, wide, both): indices that do not fit 16 bits */
+	{
+		static const uint32_t dims[][2] = { { 70000, 12 }, { 12, 70000 }, { 66000, 66000 }, { 131080, 40 }, { 40, 131080 }, { 65537, 65536 } };
+		int reps = T ? 12 : 1;
+		for (int d = 0; d < 6; d++, unit++) {
+			rep_unit(unit);
+			if (!rep_unit_mine(unit)) continue;
+			rng_t r = rng_make(g_run.seed, 1790 + (uint64_t)d, 17);
+			for (int q = 0; q < reps; q++) {
+				int nent = q % 3 == 2 ? 6000 : 1500;
+				if (!rep_case("big dimensions %ux%u entries=%d rep=%d", dims[d][0], dims[d][1], nent, q)) { (void)rng_u64(&r); continue; }
+				rng_t rr = rng_make(rng_u64(&r), (uint64_t)q, (uint64_t)d);
+				big_case(&rr, dims[d][0], dims[d][1], nent);
+				rep_case_done(1, 0, 1);
+			}
+		}
+	}
 	/* exhaustive small sequences */
 	int depth = T ? 5 : 4;
 	for (int first = 0; first < 15; first++, unit++) {
